@@ -250,7 +250,9 @@ def probe_shapes(r, d, counter):
     if k == 14:
         return f'({E()}).{r.choice(["list", "min", "max", "get"])}({E()})'
     if k == 15:
-        return f'[{E()}, {E()}, {E()}][{E()}:{E()}:{E()}]'
+        # the slice forms the grammar derives besides [a:b] (a step only ever stands alone: [::k]); [a:b:c] is not derivable
+        form = r.choice(['[::{0}]', '[{0}::]', '[:{0}:]', '[{0}:]', '[:{0}]', '[:]', '[::{0}]'])
+        return f'[{E()}, {E()}, {E()}]' + form.format(E())
     if k == 16:
         return f'(w => [w, {E()}])({E()})' if False else f'apply((w, z) => [{E()}, w, z], {E()}, {E()})'
     if k == 17:
